@@ -237,7 +237,10 @@ def run_attempts(kind, queue, masks, empties=()):
 
 
 def run_once(kind, queue, bits, empties=()):
-    """serviceTxPktsOnce family: call i fails iff bits[i]. Oracle: exactly once, per-destination order."""
+    """serviceTxPktsOnce family: call i fails iff bits[i] (or: the destinations in bits[i] fail).  Oracle: exactly once,
+    per-destination order, and progress: in any window of D consecutive calls (D = destinations in the queue) during which
+    some destination with a waiting packet never fails, at least one datagram goes out -- a failing destination at the
+    head of the queue must not hold up the healthy ones."""
     from ioflo.aio.proto import packeting
     st, h = make_stack(kind)
     items = labels(queue)
@@ -246,6 +249,8 @@ def run_once(kind, queue, bits, empties=()):
     sent = []
     calls = 0
     limit = len(bits) + 3 * len(items) + 3
+    used = sorted(set(queue))
+    hist = []                  # per call: (failing destinations, destinations with a waiting packet before the call, datagrams delivered)
     while st.txPkts and calls <= limit:
         fail = bits[calls] if calls < len(bits) else 0
         if isinstance(fail, tuple):          # subset family: exactly these destinations fail during this call
@@ -259,8 +264,18 @@ def run_once(kind, queue, bits, empties=()):
             return ("raises", "%s: %s" % (type(ex).__name__, ex), sent)
         if len(h.sent) > 1:
             return ("once-sent-many", "one serviceTxPktsOnce call delivered %r" % (h.sent,), sent)
+        done = set(l for l, _ in sent)
+        hist.append((set(h.failing), set(d for l, d in items if l not in done), len(h.sent)))
         sent += h.sent
         calls += 1
+        if len(hist) >= len(used):
+            win = hist[-len(used):]
+            healthy = set(used) - set().union(*[w[0] for w in win])
+            waiting = healthy & win[0][1]
+            if waiting and not any(w[2] for w in win):
+                return ("blocked-by-failing-destination",
+                        "calls %d..%d delivered nothing although %s had a packet waiting and never failed (failing per call: %r); delivered so far %r"
+                        % (calls - len(used) + 1, calls, sorted(waiting), [sorted(w[0]) for w in win], [l for l, _ in sent]), sent)
     labs = [l for l, _ in sent]
     if st.txPkts:
         return ("never-sent", "queue not drained after %d calls: sent %r" % (calls, labs), sent)
@@ -445,7 +460,8 @@ def run():
         "per-send failure family: a destination counts as failing in a pass iff at least one send to it failed in that pass; only observations are constrained "
         "(exactly once, per-destination order over the whole run, packets of destinations without a failed send go out in that pass)",
         "a zero-length datagram is an ordinary packet: the double accepts it and returns 0 bytes sent, as socket.sendto does",
-        "serviceTxPktsOnce family: only exactly-once delivery and per-destination order are required (one call handles one packet, so 'not blocked' is not defined per call)",
+        "serviceTxPktsOnce family: exactly-once delivery, per-destination order, and progress for healthy destinations: over any D consecutive calls (D = number of "
+        "destinations in the queue) in which some destination with a waiting packet never fails, at least one datagram is delivered",
         "queues longer than %d packets are enumerated up to renaming of the three destinations (addresses are opaque dictionary keys to the stack)" % FULLN,
         "after the enumerated passes every send succeeds; delivery must then complete within queue-length+3 further passes",
     ]
